@@ -48,7 +48,7 @@ type SSpec struct {
 	Creds    string            `json:"creds,omitempty"`     // token | userpass | none
 	UseStart bool              `json:"use_start,omitempty"` // replicate from the collection's start position
 	BadPos   string            `json:"bad_pos,omitempty"`
-	Kafka    bool              `json:"kafka,omitempty"` // Kafka downstream (producer stubbed); Target is ignored
+	Kafka    bool              `json:"kafka,omitempty"`      // Kafka downstream (producer stubbed); Target is ignored
 	MapSrcDB string            `json:"map_src_db,omitempty"` // source database of the name mapping when it is not the specification's own (an invalid request)
 }
 
@@ -89,6 +89,8 @@ type SScript struct {
 	Targets []string       `json:"targets"`
 	// MsgFaults: running numbers of the drop-message store calls that fail (these calls are not parked, see RigS.gate)
 	MsgFaults []int `json:"msg_faults,omitempty"`
+	// ConnFaults: running numbers of the message-queue connection checks that fail (not parked either)
+	ConnFaults []int `json:"conn_faults,omitempty"`
 }
 
 const replicateChan = "by-dev-replicate-msg"
@@ -280,6 +282,9 @@ func genSOps(rng *Rng, sc *SScript, prop string) {
 		if rng.Pct(20) {
 			sc.MsgFaults = []int{rng.Range(0, 5)}
 		}
+		if rng.Pct(15) {
+			sc.ConnFaults = []int{rng.Range(0, 5)}
+		}
 	default:
 		// lifecycle / ownership / API shapes: sequences over several tasks and targets
 		n := rng.Range(4, 14)
@@ -345,6 +350,12 @@ func genSOps(rng *Rng, sc *SScript, prop string) {
 		}
 		if rng.Pct(20) {
 			sc.Faults["tq_err"] = 1
+		}
+		if prop == "C11" && rng.Pct(35) {
+			sc.ConnFaults = []int{rng.Range(0, 5)}
+			if rng.Pct(30) {
+				sc.ConnFaults = append(sc.ConnFaults, rng.Range(1, 7))
+			}
 		}
 		if prop == "C11" || prop == "C10" || prop == "C18" {
 			sc.Knobs.Crashes = rng.Range(0, 1)
